@@ -38,7 +38,7 @@ def beads_file(rng, inst, path, npop=4, per=140, floatdata=False, voltage=None, 
     lab = np.concatenate([rng.integers(0, npop, size=350), np.repeat(np.arange(npop), per)])
     rng.shuffle(lab)
     for j, ch in enumerate(inst['fl']):
-        c = centers[lab] * (1 + 0.03 * j) + rng.normal(0, 4, size=n)
+        c = centers[lab] * (1 + 0.03 * (j % 5)) + rng.normal(0, 4, size=n)      # (kept clear of the upper limit for any number of channels)
         cols.append(np.clip(np.round(c), 0, R - 1))
     names = [inst['fsc'], inst['ssc']] + inst['fl']
     if with_time:
@@ -64,10 +64,10 @@ def sample_file(rng, inst, path, n=None, floatdata=False, voltage=None, amp_log=
     fsc, ssc = blob(rng, n, R)
     cols = [fsc, ssc]
     for j, ch in enumerate(inst['fl']):
-        c = rng.normal(300 + 120 * j, 60, size=n)
-        z = rng.random(n) < 0.03
+        c = rng.normal(300 + 120 * (j % 4), 60, size=n)      # (inside the range for any number of channels)
+        z = rng.random(n) < 0.03 / max(1, len(inst['fl']) / 3.0)
         c[z] = 0
-        s = rng.random(n) < 0.02
+        s = rng.random(n) < 0.02 / max(1, len(inst['fl']) / 3.0)
         c[s] = R - 1
         cols.append(np.clip(np.round(c), 0, R - 1))
     names = [inst['fsc'], inst['ssc']] + inst['fl']
